@@ -1503,6 +1503,10 @@ func (v *VMValue) ComputedExecute(ctx *Context, detail *BufferSpan) *VMValue {
 	} else {
 		vm.code = cd.code
 		vm.codeIndex = cd.codeIndex
+		// 兼容: 如果没有parser填充一个避免报错，不过会占用一些额外的内存
+		// 注意需要在执行前填充，push.def_expr 会读取原文
+		vm.parser = &parser{data: []byte(cd.Expr)}
+		vm.parser.pt.offset = len(vm.parser.data)
 		vm.evaluate()
 	}
 
@@ -1515,11 +1519,6 @@ func (v *VMValue) ComputedExecute(ctx *Context, detail *BufferSpan) *VMValue {
 	var detailText string
 	if vm.top != 0 {
 		ret = vm.stack[vm.top-1].Clone()
-		if vm.parser == nil {
-			// 兼容: 如果没有parser填充一个避免报错，不过会占用一些额外的内存
-			vm.parser = &parser{data: []byte(cd.Expr)}
-			vm.parser.pt.offset = len(vm.parser.data)
-		}
 		detailText = vm.makeDetailStr(vm.DetailSpans)
 	} else {
 		ret = NewNullVal()
